@@ -15,7 +15,7 @@ def check(ctx):
     ctx.clause("R-WRITERS/R-GUARD/R-PAIR call request issued at one site, under should_execute && peer == current, pending mark persisted")
     ctx.clause("R-TABLE handle_prev_state decision table; StateDescriptor constructors; !should_execute re-emits the met state")
     ctx.clause("R-WRITERS/R-PAIR call_results consumed only by remove(call_id) in handle_prev_state; exactly one meet_call_end follows")
-    ctx.clause("R-TABLE call merge prefers Executed/Failed over RequestSentBy")
+    ctx.clause("R-TABLE call merge prefers Executed/Failed over RequestSentBy and keeps the previous (own) pending mark on RequestSentBy/RequestSentBy")
 
     site = common.call_request_site(ctx, F)
 
@@ -182,3 +182,4 @@ def check(ctx):
                     "%s: failure paths record %s states" % (name, errs))
     # --- merge table
     mergetab.call_merge_prefers_result(ctx, F)
+    mergetab.call_merge_keeps_pending_mark(ctx, F)
